@@ -403,7 +403,13 @@ pub fn gcd_ext_in_place(
                     &t1[..t1_len],
                 );
             }
-            if t_carry > 0 {
+            if t0_len > qt1_len {
+                // t0 is longer than q*t1: the carry goes into the untouched high words of t0
+                if crate::add::add_word_in_place(&mut t0[qt1_len..t0_len], t_carry) {
+                    t0[t0_len] = 1;
+                    t0_len += 1;
+                }
+            } else if t_carry > 0 {
                 t0[qt1_len] = t_carry;
                 t0_len = qt1_len + 1;
             } else {
